@@ -256,7 +256,7 @@ fn nested_string(t: &mut Tape) -> String {
                 }
                 1 => s.push(','),
                 _ => {
-                    if depth < 5 {
+                    if depth < 16 {
                         scope(t, s, depth + 1)
                     } else {
                         s.push('a')
@@ -275,6 +275,44 @@ fn nested_string(t: &mut Tape) -> String {
         s.push(c);
     }
     let mut s = String::new();
+    // deep chains: k nested scopes (mostly of one kind, so that per-kind scope stacks grow deep),
+    // with a broken scope at the bottom or somewhere inside
+    if t.chance(70) {
+        let k = 2 + t.choose(18);
+        let kinds = [('(', ')'), ('<', '>'), ('{', '}')];
+        let main = t.choose(2);
+        let mut closers = vec![];
+        for i in 0..k {
+            let kind = if t.chance(40) { t.choose(3) } else { main };
+            let (o, c) = kinds[kind];
+            if t.chance(60) {
+                let l = 1 + t.choose(3);
+                ident(t, &mut s, l);
+            }
+            s.push(o);
+            closers.push(c);
+            if i == 0 && t.flag() {
+                // something long enough to make the outermost scope big
+                let l = t.choose(40);
+                ident(t, &mut s, l);
+                if t.flag() {
+                    s.push(',');
+                }
+            }
+        }
+        if t.flag() {
+            ident(t, &mut s, 1);
+        }
+        while let Some(c) = closers.pop() {
+            s.push(c);
+            if t.chance(40) {
+                s.push(',');
+                let l = 1 + t.choose(3);
+                ident(t, &mut s, l);
+            }
+        }
+        return s;
+    }
     let n = 1 + t.choose(3);
     for i in 0..n {
         if i > 0 && t.flag() {
